@@ -614,9 +614,12 @@ fn gen_c17(ctx: &mut Ctx) {
                 vec![format!("CIN.{}.{}", own, t), format!("SND.{}.-", own), format!("CFG.{}.{}", own, (t + 1) % 11), format!("SHW.{}.50", own)],
                 vec![format!("SND.{}.{}", own, pages[0]), format!("SHW.{}.50", own), format!("CFG.{}.{}", own, t), format!("LNX.{}.50", own)],
                 vec![format!("CFG.{}.{}", own ^ 1, t), format!("BYE.{}", own ^ 1), format!("SHW.{}.50", own ^ 1)],
+                // a page source that itself talks over the wire while send_pages drains it (the other sign of the bus is
+                // shut down, this sign is polled)
+                vec![format!("CFG.{}.{}", own, t), format!("SNN.{}.BYE:{}~LNX:{}:5.{}", own, own.wrapping_add(7), own, pages.join("+")), format!("SHW.{}.50", own)],
             ];
             for (si, ops) in seqs.iter().enumerate() {
-                if !thorough && si >= 2 && n > 2 {
+                if !thorough && si >= 2 && si != 4 && n > 2 {
                     continue;
                 }
                 let prior: Vec<String> = match si {
